@@ -211,6 +211,8 @@ def _eager_over(v, prm):
     def is_p(x):
         if isinstance(x, ast.Name) and x.id == prm:
             return True
+        if isinstance(x, ast.Call) and call_name(x) in ('map', 'filter') and len(x.args) == 2:
+            return is_p(x.args[1])
         return isinstance(x, ast.Call) and call_name(x) in ('list', 'tuple', 'sorted', 'enumerate', 'reversed', 'iter') and x.args and is_p(x.args[0])
     if isinstance(v, ast.Call) and call_name(v) in ('list', 'tuple', 'sorted') and v.args and is_p(v.args[0]):
         return True
